@@ -622,7 +622,7 @@ class FormalContext:
     ) -> List[Tuple[int, ...]]:
         intent_i = set(intent_i)
         base_generator = list(base_generator) if base_generator is not None else []
-        base_objects_i = list(base_objects_i)
+        base_objects_i = list(base_objects_i) if base_objects_i is not None else list(range(self.n_objects))
 
         attrs_to_iterate = [m_i for m_i in range(self.n_attributes) if m_i not in base_generator]
         min_gens = set()
